@@ -205,7 +205,32 @@ def gen_spec(rng):
         spec["clp_constraints"] = [{"type": "zero", "target": "q1", "interval": [(1, 2)]}]
     if rng.integers(3) == 0:
         spec["weights"] = [{"datasets": ["d1"], "value": 2.0}]
+    if rng.integers(3) == 0:
+        share_labels(spec)
     return spec
+
+
+def share_labels(spec, shared="x1"):
+    """Labels are unique per collection only: give one item of every collection the SAME label."""
+    ren = {"megacomplex": "dec" if "dec" in spec["megacomplex"] else sorted(spec["megacomplex"])[0], "k_matrix": "km1", "initial_concentration": "ic",
+           "irf": sorted(spec["irf"])[0], "shape": "sh1"}
+    for coll, old in ren.items():
+        if coll in spec and old in spec[coll]:
+            spec[coll] = {(shared if k == old else k): v for k, v in spec[coll].items()}
+    mc_old = ren["megacomplex"]
+    for ds in spec["dataset"].values():
+        ds["megacomplex"] = [shared if m == mc_old else m for m in ds["megacomplex"]]
+        if "global_megacomplex" in ds:
+            ds["global_megacomplex"] = [shared if m == mc_old else m for m in ds["global_megacomplex"]]
+        if ds.get("irf") == ren["irf"]:
+            ds["irf"] = shared
+        if ds.get("initial_concentration") == "ic":
+            ds["initial_concentration"] = shared
+    for mc in spec["megacomplex"].values():
+        if "k_matrix" in mc:
+            mc["k_matrix"] = [shared if k == "km1" else k for k in mc["k_matrix"]]
+        if "shape" in mc:
+            mc["shape"] = {k: (shared if v == "sh1" else v) for k, v in mc["shape"].items()}
 
 
 VALUES = {"r.": 0.5, "o.f": 40.0, "o.r": 0.3, "a.w": 0.2, "pf.f": 520.0, "pf.r": -0.4, "k.": 0.4, "j.1": 1.0, "j.0": 0.0, "i.c": 0.3, "i.w": 0.12, "i.s": 1.0, "i.dc": 500.0,
